@@ -393,6 +393,7 @@ fn run(args: &Args, shapes: &[&'static vhc::ShapeInfo]) {
     let only_mode = args.get("only-mode", "");
     let hooks_off = args.flags.contains("no-hook");
     let slow_ms = args.num("slow-ms", 0);
+    let cap_len = args.num("cap-len", 0);
     let g = gen::Gen {
         shapes,
         small,
@@ -472,6 +473,11 @@ fn run(args: &Args, shapes: &[&'static vhc::ShapeInfo]) {
             Some(x) => x,
             None => break,
         };
+        if cap_len > 0 && (case.len as u64 > cap_len || case.nt == 0 || case.nt > 6 || case.probe_sleep_us > 0) {
+            // ThreadSanitizer build: the dependency's spin-waits under a 10x slowdown, 16 processes x 16 threads, make long
+            // inputs and many-thread cases take minutes; those are exercised by the plain and release builds
+            continue;
+        }
         if !only_mode.is_empty() {
             let m = match case.mode {
                 Mode::S => "S",
